@@ -490,10 +490,32 @@ func init() {
 				}
 				return scalar(rt, e.ctx.uf("types.TypeString", SString, ts...))
 			}},
-		"golang.org/x/tools/go/packages.Load": {"fs-read", "packages.Load reads the file system and runs go list; it writes nothing in the source tree when go.mod/go.sum are complete (A-load)",
+		"golang.org/x/tools/go/packages.Load": {"fs-read", "packages.Load reads the file system and runs go list as configured by the given Config (it writes nothing in the source tree when go.mod/go.sum are complete and no build flag asks for it); every returned package is non-nil; a package without errors has type information and well-formed syntax trees (A-load)",
 			func(e *Exec, fr *frame, st *State, ci ssa.CallInstruction, args []SV, rt types.Type) SV {
+				// expose the configuration the loader is called with
+				if pt, ok := args[0].T.Underlying().(*types.Pointer); ok && len(args[0].L) == 1 {
+					cfg := e.load(st, &Addr{Kind: AObj, Class: typeKey(pt.Elem()), Ref: args[0].L[0], T: pt.Elem()})
+					st.events[len(st.events)-1].SVs = append(st.events[len(st.events)-1].SVs, cfg)
+				}
+				// the loader allocates the packages, their syntax trees and type information
+				allocPre := st.alloc
+				na := e.ctx.fresh("alloc", SInt)
+				st.pc = append(st.pc, Ge(na, st.alloc))
+				st.alloc = na
+				e.markFrame(st, allocPre, "H:golang.org/x/tools/go/packages.", "A:golang.org/x/tools/go/packages.", "A:*golang.org/x/tools/go/packages.", "H:go/ast.", "A:*go/ast.", "A:go/ast.")
 				res := e.freshSV("load", rt)
 				e.wfAssume(st, res)
+				tt, ok := rt.(*types.Tuple)
+				if ok && tt.Len() == 2 {
+					pk := SV{T: tt.At(0).Type(), L: res.L[:4]}
+					if ex, err := parseSpecExpr("forall(i, 0 <= i && i < len(pkgs) ==> pkgs[i] != nil && (len(pkgs[i].Errors) == 0 ==> pkgs[i].Types != nil && astOk(pkgs[i].Syntax)))"); err == nil {
+						if g, err := e.evalSpecBool(ex, &specEnv{st: st, old: st, vars: map[string]SV{"pkgs": pk}}); err == nil {
+							st.pc = append(st.pc, g)
+						} else {
+							e.notes = appendUnique(e.notes, "A-load facts not available: "+err.Error())
+						}
+					}
+				}
 				return res
 			}},
 		"os.Exit": {"exit", "os.Exit terminates the process with the given status",
